@@ -125,8 +125,18 @@ RawBoolCases ==
 FamMax(z) == {Str(Fill(65535, 20)), Str(Fill(65534, 20)), Obj(<<<<Fill(65535, 11), Null>>>>),
               Obj(<<<<KA, Str(Fill(65535, 21))>>, <<KB, One>>>>), Ecma(<<0, 0>>, <<<<Fill(65534, 12), Str(Fill(65535, 22))>>>>)}
 
+\* text is a sequence of BYTES with a 16-bit BYTE count: well-formed multi-byte UTF-8 (2, 3 and 4 byte
+\* sequences: e-acute, two CJK characters, an emoji) as string values and as names
+U_e    == Raw(<<195, 169>>)
+U_cjk  == Raw(<<231, 155, 180, 230, 146, 173>>)
+U_emo  == Raw(<<240, 159, 152, 128>>)
+U_mix  == Raw(<<97, 195, 169, 98, 240, 159, 152, 128, 99>>)
+FamUtf8(z) == {Str(U_e), Str(U_cjk), Str(U_emo), Str(U_mix)}
+              \cup UNION {Around(<<<<k, Str(v)>>, <<KA, One>>>>) : k \in {U_e, U_cjk, U_mix}, v \in {U_emo, U_mix}}
+
 FamVals(f) ==
   CASE f = "scalar" -> FamScalar
+    [] f = "utf8"   -> FamUtf8(0)
     [] f = "maxlen" -> FamMax(0)
     [] f = "single" -> FamSingle(0)
     [] f = "shape"  -> FamShape(0)
